@@ -329,7 +329,8 @@ def _history_table(prog: Program, ctx: Ctx) -> None:  # noqa: PLR0912,PLR0915
         it.call(meth(k, "set_member"), k, "f", new("Function", "f"))
         it.call(meth(n, "set_member"), n, "y", new("Alias", "y", "m.x"))
         it.call(meth(n, "set_member"), n, "w", new("Alias", "w", "m.K"))
-        return coll, {"m": {"K": {"f": {}}, "x": {}}, "n": {"y": {}, "w": {}}}
+        it.call(meth(n, "set_member"), n, "z", new("Alias", "z", "n.y"))  # a chain: n.z -> n.y -> m.x
+        return coll, {"m": {"K": {"f": {}}, "x": {}}, "n": {"y": {}, "w": {}, "z": {}}}
 
     def container(coll: Obj, path: tuple[str, ...]) -> Obj:
         cur = coll
@@ -405,7 +406,7 @@ def _history_table(prog: Program, ctx: Ctx) -> None:  # noqa: PLR0912,PLR0915
         op_set("name", ("m", "z"), "object"), op_set("name", ("n", "y"), "alias"),
         op_set("item on the collection, dotted", ("m", "x"), "object"), op_set("item on the collection, tuple", ("m", "K", "f"), "object"),
         op_del("name", ("m", "x")), op_del("dotted", ("m", "K", "f")), op_del("tuple", ("n", "y")), op_del("dotted", ("m", "x")),
-        op_resolve(("n", "y")), op_resolve(("n", "w")),
+        op_resolve(("n", "y")), op_resolve(("n", "w")), op_resolve(("n", "z")),
     ]
 
     def walk(o: Obj, model: dict, path: tuple[str, ...], problems: list[str], coll: Obj) -> None:
@@ -431,6 +432,10 @@ def _history_table(prog: Program, ctx: Ctx) -> None:  # noqa: PLR0912,PLR0915
                 tgt = child.attrs.get("_target")
                 if tgt is child:
                     problems.append(f"alias {'.'.join(cpath)} targets itself")
+                hops = 0
+                while isinstance(tgt, Obj) and tgt.cls is not None and tgt.cls.name == "Alias" and hops < 8:  # a chain registers on the object at its end
+                    tgt = tgt.attrs.get("_target")
+                    hops += 1
                 if isinstance(tgt, Obj) and tgt.cls is not None and tgt.cls.name != "Alias":
                     reg = tgt.attrs.get("aliases", {})
                     if reg.get(".".join(cpath)) is not child:
@@ -492,6 +497,44 @@ def _history_table(prog: Program, ctx: Ctx) -> None:  # noqa: PLR0912,PLR0915
         ctx.ob("R7", k, ok, f"after {labels}: " + ("all invariants hold" if ok else problem), "src/_griffe/mixins.py")
     ctx.expect_min("R7", n_hist, 250)
     ctx.analysed["histories"] = n_hist
+    # a module replaced by its stubs counterpart (or the stubs by the module) while a resolved alias is registered on it: the alias ends up on
+    # whichever module object the tree keeps
+    from pathlib import PurePosixPath as PP
+
+    sm = prog.function("_griffe.mixins.SetMembersMixin.set_member")
+    for holder_kind, (first, second) in itertools.product(("collection", "package"), ((".py", ".pyi"), (".pyi", ".py"))):
+        it.steps = 0
+        label = f"stubs-merge|{holder_kind}|{first} then {second}"
+        try:
+            coll = it._construct(cc, [], {})
+            if holder_kind == "package":
+                holder = new("Module", "p", filepath=PP("/s/p/__init__.py"))
+                it.call(meth(coll, "set_member"), coll, "p", holder)
+                base, target_path = "/s/p/m", "p.m"
+            else:
+                holder, base, target_path = coll, "/s/m", "m"
+            m1 = new("Module", "m", filepath=PP(base + first))
+            it.call(meth(holder, "set_member"), holder, "m", m1)
+            it.call(meth(m1, "set_member"), m1, "x", new("Attribute", "x"))
+            n_ = new("Module", "n", filepath=PP("/s/n.py"))
+            it.call(meth(coll, "set_member"), coll, "n", n_)
+            a = new("Alias", "v", target_path)
+            it.call(meth(n_, "set_member"), n_, "v", a)
+            it.getattr(a, "target")
+            m2 = new("Module", "m", filepath=PP(base + second))
+            it.call(meth(m2, "set_member"), m2, "x", new("Attribute", "x"))
+            it.call(meth(holder, "set_member"), holder, "m", m2)
+            stored = holder.attrs["members"]["m"]
+            if a.attrs.get("_target") is not stored:
+                problem = "the alias n.v targets a module object that is not the one stored in the tree"
+            elif stored.attrs.get("aliases", {}).get("n.v") is not a:
+                problem = "the stored module does not list the alias n.v"
+            else:
+                problem = None
+        except Raised as r:
+            problem = f"raises {r.exc}"
+        ctx.ob("R7", label, problem is None, f"module m ({first}) with a resolved alias on it, replaced in its {holder_kind} by m ({second}): "
+               + (problem or "the alias follows the module the tree keeps"), where(sm))
 
 
 def _missing(model: dict, label: str) -> bool:
